@@ -119,6 +119,8 @@ for _p in ("C01", "C03", "C05"):
     EXTRA.setdefault(_p, []).append("Known finding F19: increments of the 29-bit count fields are unbounded (CW-COUNT-OVERFLOW).")
 EXTRA.setdefault("C06", []).append("Count-word updates made at destruction time write no fresh stamp (a node's stamp must age).")
 EXTRA["C06"].append("Known finding F20: the 4-bit stamps are never aged; beyond the window 5 of 16 residues read as too recent (MOD-AGING).")
+for _p in ("C04", "C15"):
+    EXTRA[_p].append("Known finding F21: pin/unpin never flush the private bag (EBR-PIN-PROGRESS).")
 EXTRA["C04"].append("Known finding F14: a panicking user destructor during a collection (no unwind guard in unpin / Bag::drop).")
 EXTRA["C15"].append("Known finding F14: a panicking user destructor during a collection (no unwind guard in unpin / Bag::drop).")
 EXTRA["C16"] = ["unpin writes back a guard count read after the collection (F11, fixed)."]
